@@ -13,19 +13,34 @@ Proof. induction 1; auto. f_equal; auto. apply Forall2_eq; auto. Qed.
 
 Lemma sim_block_full : forall blk c a, Rfull false c a ->
   match exec_block conc c blk, exec_block abs a blk with
-  | (c', t1, rcs1, g1), (a', t2, rcs2, _) =>
-      g1 = true -> Rfull false c' a' /\ t1 = t2 /\ rcs1 = rcs2
+  | (c', t1, rcs1, g1), (a', t2, rcs2, g2) =>
+      g1 = g2 /\ (g1 = true -> Rfull false c' a' /\ t1 = t2 /\ rcs1 = rcs2)
   end.
 Proof.
   intros blk c a HR.
   pose proof (sim_block conc abs Rfull eq true (fun o => eq_refl)
     sim_sget sim_sset sim_skeys sim_lget sim_llist sim_lset sim_lkeys sim_begin sim_commit
-    (fun c a H G => sim_rollback c a H (G eq_refl))
+    (fun c a H G => sim_rollback c a H (G eq_refl)) (fun _ => sim_rbok)
     sim_starttx sim_enter sim_leave blk c a HR) as H.
   destruct (exec_block conc c blk) as [[[c' t1] rcs1] g1].
   destruct (exec_block abs a blk) as [[[a' t2] rcs2] g2].
+  destruct H as [HG H]. split; [exact (HG eq_refl)|].
   intro G. destruct (H (fun _ => G)) as (H1 & H2 & H3).
   split; [exact H1|split; [apply Forall2_Forall2_eq, H2|exact H3]].
+Qed.
+
+(** the guard can be read off the specification's run as well (instrumentation bit [a_dirty]) *)
+Definition spec_guard (store main : cdb) (blk : list item) : bool :=
+  let '(_, _, _, g) := exec_block abs (abs_init store main) blk in g.
+
+Lemma model_guard_eq : forall store main blk trs rcs g,
+  sorted main -> run_model store main blk = (trs, rcs, g) -> g = spec_guard store main blk.
+Proof.
+  intros store main blk trs rcs g Sm. unfold run_model, spec_guard.
+  pose proof (sim_block_full blk _ _ (sim_init store main Sm)) as H.
+  destruct (exec_block conc (conc_init store main) blk) as [[[c' t1] rcs1] g1].
+  destruct (exec_block abs (abs_init store main) blk) as [[[a' t2] rcs2] g2].
+  intro E. inversion E; subst. apply H.
 Qed.
 
 (** receipts and every read of the block agree with the specification *)
@@ -38,32 +53,33 @@ Proof.
   pose proof (sim_block_full blk _ _ (sim_init store main Sm)) as H.
   destruct (exec_block conc (conc_init store main) blk) as [[[c' t1] rcs1] g1].
   destruct (exec_block abs (abs_init store main) blk) as [[[a' t2] rcs2] g2].
-  intro E. inversion E; subst. destruct (H eq_refl) as (_ & H2 & H3). subst. reflexivity.
+  intro E. inversion E; subst. destruct H as [_ H]. destruct (H eq_refl) as (_ & H2 & H3). subst. reflexivity.
 Qed.
 
 Lemma spec_replace_run store main blk trs rcs :
   run_spec store main blk = (trs, rcs) ->
-  run_spec store main (replace_failed (abs_init store main) blk) = (erase_failed rcs trs, rcs).
+  run_spec store main (replace_failed (abs_init store main) blk) = (erase_failed rcs trs, rcs) /\
+  spec_guard store main (replace_failed (abs_init store main) blk) = true.
 Proof.
-  unfold run_spec. pose proof (spec_replace_block blk (abs_init store main)) as H.
+  unfold run_spec, spec_guard. pose proof (spec_replace_block blk (abs_init store main)) as H.
   destruct (exec_block abs (abs_init store main) blk) as [[[a1 t1] r1] g1].
-  destruct (exec_block abs (abs_init store main) (replace_failed (abs_init store main) blk)) as [[[a2 t2] r2] g2].
-  unfold res3 in H. simpl in H. intro E. inversion E; subst. inversion H; subst. reflexivity.
+  rewrite H. intro E. inversion E; subst. split; reflexivity.
 Qed.
 
-(** the block in which every failed transaction / group only pays its fee gives the same
-    receipts and the same reads (the reads of the failed transactions themselves are
-    not part of it) *)
-Theorem failed_equiv_fee_only : forall store main blk trs rcs trs' rcs',
+(** the block in which every failed transaction / group only pays its fee satisfies the guard
+    and gives the same receipts and the same reads (the reads of the failed transactions
+    themselves are not part of it) *)
+Theorem failed_equiv_fee_only : forall store main blk trs rcs,
   sorted main ->
   run_model store main blk = (trs, rcs, true) ->
-  run_model store main (replace_failed (abs_init store main) blk) = (trs', rcs', true) ->
-  rcs' = rcs /\ trs' = erase_failed rcs trs.
+  run_model store main (replace_failed (abs_init store main) blk) = (erase_failed rcs trs, rcs, true).
 Proof.
-  intros store main blk trs rcs trs' rcs' Sm E1 E2.
+  intros store main blk trs rcs Sm E1.
   apply (model_refines_spec _ _ _ _ _ Sm) in E1.
-  apply (model_refines_spec _ _ _ _ _ Sm) in E2.
-  rewrite (spec_replace_run _ _ _ _ _ E1) in E2. inversion E2; subst. auto.
+  destruct (spec_replace_run _ _ _ _ _ E1) as [S2 G2].
+  destruct (run_model store main (replace_failed (abs_init store main) blk)) as [[t2 r2] g2] eqn:E2.
+  pose proof (model_guard_eq _ _ _ _ _ _ Sm E2) as HG. rewrite G2 in HG. subst g2.
+  apply (model_refines_spec _ _ _ _ _ Sm) in E2. rewrite S2 in E2. inversion E2; subst. reflexivity.
 Qed.
 
 (** state writes: no guard *)
@@ -75,7 +91,7 @@ Proof.
   intros store main blk trs rcs g trs' rcs' g' E1 E2.
   destruct (run_spec store main blk) as [st sr] eqn:S1.
   destruct (state_refines_spec _ _ _ _ _ _ _ _ E1 S1) as [R1 M1].
-  pose proof (spec_replace_run _ _ _ _ _ S1) as S2.
+  destruct (spec_replace_run _ _ _ _ _ S1) as [S2 _].
   destruct (state_refines_spec _ _ _ _ _ _ _ _ E2 S2) as [R2 M2].
   subst. split; [reflexivity|]. rewrite M2. clear -M1.
   revert trs st M1. induction sr as [|r sr IH]; intros [|t trs] [|u st] M; simpl in *;
